@@ -199,6 +199,10 @@ func (f *fnCtx) stmt(s ast.Stmt, rest func()) {
 				f.emit("none")
 				return
 			}
+			if f.visitorCall(c) {
+				rest()
+				return
+			}
 			_ = f.call(c, true)
 			rest()
 			return
@@ -960,6 +964,66 @@ func exprSrc(e ast.Expr) string {
 		return exprFull(t.Fun) + "(" + strings.Join(as, ",") + ")"
 	}
 	return exprFull(e)
+}
+
+// visitorCall: `obj.ForEach…(ctx, x, func(…) bool { flag = <const>; return <const> })` — an iteration of an opaque object with a
+// visitor that only sets captured locals to constants.  The object decides how often the visitor runs; what the function can
+// observe afterwards is whether it ran at all: an accessor `<method>_visits : Bool` of the object, and the captured locals
+// take their constants when it did
+func (f *fnCtx) visitorCall(c *ast.CallExpr) bool {
+	if len(c.Args) == 0 {
+		return false
+	}
+	lit, ok := c.Args[len(c.Args)-1].(*ast.FuncLit)
+	if !ok {
+		return false
+	}
+	type asg struct {
+		o   types.Object
+		val string
+	}
+	var asgs []asg
+	for _, st := range lit.Body.List {
+		switch y := st.(type) {
+		case *ast.AssignStmt:
+			if y.Tok != token.ASSIGN || len(y.Lhs) != 1 || len(y.Rhs) != 1 {
+				return false
+			}
+			id, ok := y.Lhs[0].(*ast.Ident)
+			if !ok {
+				return false
+			}
+			o, ok := f.localVar(id)
+			if !ok {
+				return false
+			}
+			tv, ok := f.info.Types[y.Rhs[0]]
+			if !ok || tv.Value == nil {
+				return false
+			}
+			asgs = append(asgs, asg{o, f.constTerm(tv.Value, f.g.classify(tv.Type), y.Rhs[0])})
+		case *ast.ReturnStmt:
+			for _, r := range y.Results {
+				if tv, ok := f.info.Types[r]; !ok || tv.Value == nil {
+					return false
+				}
+			}
+		default:
+			return false
+		}
+	}
+	head := &ast.CallExpr{Fun: c.Fun, Args: c.Args[:len(c.Args)-1]}
+	p, args, ok := f.pathOf(head)
+	if !ok || args != nil {
+		return false
+	}
+	p.segs[len(p.segs)-1] += "_visits"
+	visits := f.pathValue(p, nil, lty{k: kBool, lean: "Bool"}, c)
+	for _, a := range asgs {
+		k := f.g.classify(a.o.Type())
+		f.emit("let " + f.nameOf(a.o) + " : " + k.lean + " := if " + visits + " then " + a.val + " else " + f.readVar(a.o, &ast.Ident{Name: a.o.Name()}))
+	}
+	return true
 }
 
 // derivedObject: see bind
